@@ -2,6 +2,7 @@ package main
 
 import (
 	"fmt"
+	"strings"
 
 	"verif/mc"
 )
@@ -93,6 +94,18 @@ func c08Scenarios(tier string) []*Scenario {
 			out = append(out, sc)
 		}
 	}
+	// after a call whose reply could not be delivered (its caller gave up: own deadline) the next call on the
+	// same server / channel is judged as if it were the first
+	for _, tr := range []string{"inproc", "http"} {
+		for _, h1 := range [][]string{{"r*", "ret:ok"}, {"r*", "s0", "s1", "ret:ok"}, {"r*", "s0", "ret:ok"}} {
+			sc := &Scenario{Prop: "C08", Transport: tr, Bound: -1, Opts: "seq0,timers", RPCs: []RPC{
+				{Kind: "ss", Client: []string{"S0", "C", "R*"}, Handler: []string{"r", "s0", "s1", "s2", "ret:ok"}, Timeout: "1s"},
+				{Kind: "cs", Client: []string{"S0", "C", "R*", "R"}, Handler: h1},
+			}}
+			sc.Name = "plain|after-an-abandoned-call|" + rpcName(sc.RPCs[0]) + " >> " + rpcName(sc.RPCs[1])
+			out = append(out, sc)
+		}
+	}
 	// HTTP: single-request methods (server-streaming) given 0, 1, 2 request frames
 	for _, c := range [][]string{{"C", "R*"}, {"S0", "C", "R*"}, {"S0", "S1", "C", "R*"}, {"S0", "E1", "C", "R*"}, {"E0", "C", "R*"}, {"E0", "E1", "C", "R*"}} {
 		add("http", "", RPC{Kind: "ss", Client: c, Handler: []string{"r", "r", "s0", "ret:ok"}})
@@ -103,9 +116,15 @@ func c08Scenarios(tier string) []*Scenario {
 
 func c08Oracle(sc *Scenario, rec *Rec, s *mc.Sched) []mc.Violation {
 	out := panicViolations(s)
-	rr := rec.RPCs[0]
-	rpc := &sc.RPCs[0]
-	ref := refOf(0, rpc)
+	// scenarios that first run another call to completion (option "seq0": what the library keeps from one
+	// call is there for the next) are judged on their last call
+	j := 0
+	if strings.Contains(sc.Opts, "seq0") {
+		j = len(sc.RPCs) - 1
+	}
+	rr := rec.RPCs[j]
+	rpc := &sc.RPCs[j]
+	ref := refOf(j, rpc)
 	add := func(clause, obs string) { out = append(out, mc.Violation{Clause: clause, Obs: obs, Detail: rr}) }
 	if rpc.Kind == "ss" {
 		// request cardinality over HTTP
